@@ -88,26 +88,33 @@ Section Sim.
 
   Definition arg_code (ls : list string) (a : arg) : list insn :=
     match a with
-    | APos e => gen_expr p ls e
+    | APos e | AStar e | AStarStar e => gen_expr p ls e
     | ANamed k e => CONSTANT (VStr k) :: gen_expr p ls e
-    | _ => []
     end.
   Definition ok_args (args : list arg) : bool :=
-    forallb (fun a => match a with APos e | ANamed _ e => ok_expr e | _ => false end) args.
+    forallb (fun a => match a with APos e | ANamed _ e | AStar e | AStarStar e => ok_expr e end) args.
   Definition count_pos (args : list arg) : nat := length (filter (fun a => match a with APos _ => true | _ => false end) args).
   Definition count_named (args : list arg) : nat := length (filter is_named_arg args).
+  Definition has_star (args : list arg) : bool := existsb (fun a => match a with AStar _ => true | _ => false end) args.
+  Definition has_ss (args : list arg) : bool := existsb (fun a => match a with AStarStar _ => true | _ => false end) args.
   Definition flatkw (nm : list (string * value)) : list value := flat_map (fun kv => [VStr (fst kv); snd kv]) nm.
+  Definition optl (o : option value) : list value := match o with Some v => [v] | None => [] end.
 
-  (* ---- call arguments: positional values, then name / value pairs *)
+  (* ---- call arguments: positional values, name / value pairs, then the *args and **kwargs values *)
   Definition Ar (n : nat) : Prop :=
-    forall stk ρ args acc nacc s fid C fv K pc σ I brk cont,
-      ok_args args = true -> pos_then_named args = true -> wf ρ -> stk_ok stk fid K ->
+    forall stk ρ args acc nacc sa0 ss0 s fid C fv K pc σ I brk cont,
+      ok_args args = true -> wf ρ -> stk_ok stk fid K ->
       pcode_at C pc (flat_map (arg_code (map fst ρ)) args) brk cont ->
-      sim (eval_args p n stk ρ args acc nacc None None s) (S1 fid C fv K pc σ ρ I s)
-          (fun r => exists vs nm s', r = (acc ++ vs, nacc ++ nm, None, None, s') /\
+      sim (eval_args p n stk ρ args acc nacc sa0 ss0 s) (S1 fid C fv K pc σ ρ I s)
+          (fun r => exists vs nm sa ss s', r = (acc ++ vs, nacc ++ nm, sa, ss, s') /\
                     length vs = count_pos args /\ length nm = count_named args /\
-                    star (S1 fid C fv K pc σ ρ I s)
-                         (S1 fid C fv K (pc + length (flat_map (arg_code (map fst ρ)) args)) (rev (flatkw nm) ++ rev vs ++ σ) ρ I s')).
+                    (if has_star args then sa <> None else sa = sa0) /\
+                    (if has_ss args then ss <> None else ss = ss0) /\
+                    (pos_then_named args = true ->
+                     star (S1 fid C fv K pc σ ρ I s)
+                          (S1 fid C fv K (pc + length (flat_map (arg_code (map fst ρ)) args))
+                              ((if has_ss args then optl ss else []) ++ (if has_star args then optl sa else [])
+                               ++ rev (flatkw nm) ++ rev vs ++ σ) ρ I s'))).
 
   (* ---- entries of a dict display: the dict under construction stays on the stack *)
   Definition entry_code (ls : list string) (kv : expr * expr * pos) : list insn :=
@@ -131,13 +138,25 @@ Section Sim.
                     star (S1 fid C fv K pc σ ρ I s)
                          (S1 fid C fv K (pc + length (fst (gen_defaults p (map fst ρ) ps seen))) (rev (fst r) ++ σ) ρ I (snd r))).
 
-  (* ---- calls: the machine is at a CALL instruction with callee and arguments on the stack *)
+  (* ---- calls: the machine is at a CALL instruction with callee and arguments on the stack;
+          the reference side expands *args / **kwargs and calls *)
+  Definition mode_of (sa ss : option value) : nat :=
+    (match sa with Some _ => 1 | None => 0 end) + (match ss with Some _ => 2 | None => 0 end).
+  Definition ref_call (n : nat) (stk : list nat) (f : value) (args : list value) (nm : list (string * value))
+             (sa ss : option value) (ps : pos) (s : rst) : res (value * rst) :=
+    match lift (starstar_args ss (rw s)) ps (rw s) with
+    | Ok kw2 => match lift (star_args sa (rw s)) ps (rw s) with
+                | Ok pos2 => call p n stk f (args ++ pos2) (nm ++ kw2) ps s
+                | Fail a b c => Fail a b c | Oof => Oof | Unsup t => Unsup t end
+    | Fail a b c => Fail a b c | Oof => Oof | Unsup t => Unsup t
+    end.
   Definition Ca (n : nat) : Prop :=
-    forall stk f args nm ps s fid C fv K pc σ ρ I,
+    forall stk f args nm sa ss ps s fid C fv K pc σ ρ I,
       stk_ok stk fid K ->
-      nth_error C pc = Some (CALL 0 (length args) (length nm) ps) ->
-      sim (call p n stk f args nm ps s) (S1 fid C fv K pc (rev (flatkw nm) ++ rev args ++ f :: σ) ρ I s)
-          (fun r => star (S1 fid C fv K pc (rev (flatkw nm) ++ rev args ++ f :: σ) ρ I s)
+      nth_error C pc = Some (CALL (mode_of sa ss) (length args) (length nm) ps) ->
+      sim (ref_call n stk f args nm sa ss ps s)
+          (S1 fid C fv K pc (optl ss ++ optl sa ++ rev (flatkw nm) ++ rev args ++ f :: σ) ρ I s)
+          (fun r => star (S1 fid C fv K pc (optl ss ++ optl sa ++ rev (flatkw nm) ++ rev args ++ f :: σ) ρ I s)
                          (S1 fid C fv K (S pc) (fst r :: σ) ρ I (snd r))).
 
   (* ---- assignment of the value on top of the stack *)
